@@ -14,7 +14,8 @@ S.X-exhaust on the candidate chains (nothing short-circuits the enumeration).
 Dependency suites (rules/deps.py; each obligation is a necessary condition of this property, reported under its own rule id):
 kernel-build (C07.T-conn, C07.T-ite0, C07.R-ite, S.F-memo ite_cache, S.R-node, S.R-new, S.W-store, C06.W-ctor), kernel-restrict
 (C07.R-restrict, S.F-memo restrict_cache) and translation (C09.A-wire, C09.A-term, C09.F-order, C09.A-name, C01.A-hybrid): an answer
-is computed on diagrams built by these functions, on every back-end."""
+is computed on diagrams built by these functions, on every back-end.  cli-plumbing (C08.F-input, C10.P-cli, C10.F-print): what every answer
+printed by adf-bdd passes through, whatever the semantics."""
 NOT_DECIDED = "That no complete model lies outside the refinements of the grounded interpretation (a theorem about ADFs, not about code); duplicate-freeness beyond C20."
 TECHNIQUE = "static analysis: expression reconstruction over MIR (index/provenance agreement), finite-domain closure tables, exhaustive-consumption rule"
 
@@ -115,3 +116,4 @@ def check(ctx):
         nx = semantics.X_exhaust(ctx, lib, rule, ("ThreeValuedInterpretationsIterator::new", "from_bdd"), only_fns={"Adf::complete"})
         ctx.floor(rule, "complete chains", nx, 2)
         deps.semantics_base(ctx, lib)
+    deps.cli_plumbing(ctx)
